@@ -10,6 +10,7 @@
 #include <fstream>
 #include <functional>
 #include <string>
+#include <thread>
 #include <vector>
 
 namespace bloch::runtime::verif {
@@ -159,6 +160,13 @@ namespace bloch::runtime::verif {
                 return true;
         return false;
     }
+
+    // Thread tag for events: 0 = the thread that called execute(), 1 = any other (the timer).
+    inline std::thread::id& interpreterThread() {
+        static std::thread::id id;
+        return id;
+    }
+    inline int threadTag() { return std::this_thread::get_id() == interpreterThread() ? 0 : 1; }
 
     inline std::string jsonEscape(const std::string& s) {
         std::string o;
